@@ -187,10 +187,14 @@ func (s *aliasSim) proofOps(mode int) {
 	}
 	g := s.g
 	pick := func() []u.Hash {
-		k := 1 + g.Intn(min(len(live), 5))
+		from := live
+		if s.edgeBias && len(live) > 24 && g.Intn(2) == 0 {
+			from = live[len(live)-24:]
+		}
+		k := 1 + g.Intn(min(len(from), 5))
 		var r []u.Hash
-		for _, j := range g.Perm(len(live))[:k] {
-			r = append(r, s.slots[live[j]])
+		for _, j := range g.Perm(len(from))[:k] {
+			r = append(r, s.slots[from[j]])
 		}
 		return r
 	}
@@ -344,6 +348,14 @@ func famAlias(g *Gen, tier string, shard, nshards int) {
 	}
 	for h := 0; h < nHist; h++ {
 		s := newAliasSim(g, aliasRows[(h+shard)%len(aliasRows)])
+		// one history in six lives in a forest of many trees (9 or more roots, rows >= 9):
+		// slices of a thousand elements, proofs over 9..11 rows, deletions at the right edge,
+		// spread over the forest, and of a big tree but one leaf; undo and re-apply of the same
+		// block data objects
+		if h%6 == 5 {
+			famAliasMany(s, shard*nHist/6+h/6, h+shard, tier)
+			continue
+		}
 		nBlocks := 3 + g.Intn(maxBlocks)
 		for b := 0; b < nBlocks; b++ {
 			dm := []int{1, 1, 1, 1, 1, 1, 2, 2, 2, 6, 6, 6, 7, 7, 7, 5, 5, 3, 4, 0}[g.Intn(20)]
@@ -409,5 +421,34 @@ func famAliasExh(g *Gen, tier string, shard, nshards int) {
 				}
 			}
 		}
+	}
+}
+
+// famAliasMany: one short history in a many-tree forest (see famAlias).
+func famAliasMany(s *aliasSim, k int, layoutBase int, tier string) {
+	g := s.g
+	n := manyTreeCount(k)
+	if tier == "thorough" && k%8 == 7 {
+		n = hugeTreeCount(k / 8)
+	}
+	s.edgeBias = true
+	for len(s.slots) < n && !s.kit.tainted {
+		s.oneBlock(nil, min(n-len(s.slots), 2048), layoutBase%nLayouts)
+	}
+	nBlocks := 3 + g.Intn(3)
+	for b := 0; b < nBlocks && !s.kit.tainted; b++ {
+		style := manyTreeStyleHeavy(g)
+		if b == 0 && k%3 == 0 {
+			style = 2
+		}
+		mode := (layoutBase + b + 1) % nLayouts
+		s.oneBlock(manyTreeDeletions(g, s.alive, style), manyTreeAdds(g), mode)
+		s.proofOps(g.Intn(nLayouts - 1))
+		if len(s.hist) > 1 && g.Intn(3) == 0 {
+			s.undoRedo(1+g.Intn(min(len(s.hist)-1, 2)), g.Intn(3) != 0)
+		}
+	}
+	if s.kit.tainted {
+		emit("aliasinfo abandoned session 1")
 	}
 }
